@@ -130,7 +130,30 @@ def m_duplicate_schemas(spec, rnd):
     return f"duplicate-schemas:{k}"
 
 
-MUTATORS = [m_duplicate_operations, m_duplicate_schemas, m_allof_cycle, m_self_ref, m_dangling, m_delete_schema, m_empty_names, m_huge_name, m_keyword_names, m_methods,
+def m_allof_union_children(spec, rnd):
+    """a schema that has both allOf and oneOf/anyOf $refs whose targets inherit from it again (the allOf edges alone
+    are acyclic)"""
+    s = schemas(spec)
+    kw = rnd.choice(["anyOf", "oneOf"])
+    s["MBase"] = {"type": "object", "properties": {"id": {"type": "string"}}}
+    s["MShape"] = {"allOf": [{"$ref": "#/components/schemas/MBase"}, {"type": "object", "properties": {"k": {"type": "string"}}}],
+                   kw: [{"$ref": "#/components/schemas/MCircle"}, {"$ref": "#/components/schemas/MSquare"}]}
+    s["MCircle"] = {"allOf": [{"$ref": "#/components/schemas/MShape"}, {"type": "object", "properties": {"r": {"type": "number"}}}]}
+    s["MSquare"] = {"allOf": [{"$ref": "#/components/schemas/MShape"}, {"type": "object", "properties": {"side": {"type": "number"}}}]}
+    return "allof-union-children:" + kw
+
+
+def m_empty_operation_id(spec, rnd):
+    """an operation whose operationId is the empty string (or only separators), registered after a normal one"""
+    paths = spec.setdefault("paths", {})
+    paths.setdefault("/aaa-first", {})["get"] = {"operationId": "first_normal_op", "responses": {"200": {"description": "ok"}}}
+    oid = rnd.choice(["_", "-", "__", " "])
+    paths.setdefault("/zzz-empty", {})["get"] = {"operationId": "", "responses": {"200": {"description": "ok"}}}
+    paths.setdefault("/zzz-sep", {})["get"] = {"operationId": oid, "responses": {"200": {"description": "ok"}}}
+    return "empty-operation-id:" + repr(oid)
+
+
+MUTATORS = [m_duplicate_operations, m_duplicate_schemas, m_allof_union_children, m_empty_operation_id, m_allof_cycle, m_self_ref, m_dangling, m_delete_schema, m_empty_names, m_huge_name, m_keyword_names, m_methods,
             m_deep_nesting, m_contradictory, m_type_confusion, m_generic_variant_name]
 
 
@@ -280,6 +303,11 @@ def main(tier, seed, replay=None):
         "Error": {"type": "object", "properties": {"kind": {"oneOf": [{"$ref": "#/components/schemas/Error"}, {"type": "string"}]}}}}}}, ["witness:recursive-inline-union"]))
     cases.append(({"openapi": "3.1.0", "info": {"title": "t", "version": "1"}, "paths": {}, "components": {"schemas": {
         "Self": {"type": "object", "properties": {"crate": {"type": "string"}}}}}}, ["keyword-name:Self"]))
+    # small fixed specs around degenerate operation ids (empty / separator-only ids next to ids that share affixes)
+    okr = {"200": {"description": "ok"}}
+    for ids in (["first_normal_op", ""], ["", "first_normal_op"], ["list_items_op", "get_items_op", ""], ["a_b", "_", "-"], ["", ""], ["x", "x_", "_x"]):
+        paths = {f"/p{k}": {"get": {"operationId": oid, "responses": okr}} for k, oid in enumerate(ids)}
+        cases.append(({"openapi": "3.1.0", "info": {"title": "t", "version": "1"}, "paths": paths, "components": {"schemas": {}}}, ["degenerate-ids:" + repr(ids)]))
     if replay:
         r = json.load(open(replay))
         cases = [(r["spec"], r.get("tags", ["replay"]))]
